@@ -183,7 +183,7 @@ def const(x):
             if x == float("-inf"):
                 return mk_neg(var("inf"))
             return var("nan")
-        x = Q(repr(x))
+        x = Q(repr(float(x)))
     return T("c", (Q(x),))
 
 
